@@ -193,3 +193,10 @@ fn micro7_contains_guard() {
     assert!(marker == 0xabcd);
     std::mem::forget(a);
 }
+#[kani::proof]
+#[kani::unwind(3)]
+fn micro8_clone_empty_vec() {
+    let v: Vec<Term> = Vec::new();
+    let w = v.clone();
+    assert!(w.is_empty());
+}
